@@ -7,11 +7,12 @@ clone goes into a temporary directory next to the storage (`Storage::lock_reposi
 renames into the storage (`mv`). Modelled: the node-level outcome and whether a repository directory exists
 in the node's storage afterwards.
 
-`workerFetch` is the CURRENT code: `radicle_fetch::clone(..)?` — an `Err` returns early and the temporary
-directory is dropped (deleted) — then `mv(tmp, storage, &rid)?` UNCONDITIONALLY, and only then
-`FetchResult::Failed` is turned into `Err(Validation)`: a clone that fails the delegate threshold leaves
-the (reference-less) repository directory in storage. `workerFetchRepaired` moves the directory only for
-`FetchResult::Success` (fixes-pending/C02-failed-clone-leaves-repo.patch).
+`workerFetch` is the current code (since c80785f): `radicle_fetch::clone(..)?` — an `Err` returns early and
+the temporary directory is dropped (deleted) — and the temporary clone is renamed into storage (`mv`) iff the
+result is `FetchResult::Success`; `FetchResult::Failed` becomes `Err(Validation)` with the temporary
+directory dropped. `workerFetchBefore_c80785f` is the code before that repair: `mv` ran UNCONDITIONALLY
+before `Failed` was inspected, so a clone that failed the delegate threshold left a (reference-less)
+repository directory in storage.
 -/
 namespace HeartwoodModel.FetchWorker
 open HeartwoodModel.Fetch
@@ -27,8 +28,14 @@ def isSuccess : Outcome → Bool
   | .success _ => true
   | _ => false
 
-/-- The current `Handle::fetch`; `existed` = the repository was in storage before (pull). -/
+/-- The current `Handle::fetch`; `existed` = the repository was in storage before (pull). The temporary
+clone is moved into storage iff the fetch succeeded. -/
 def workerFetch (existed : Bool) (o : Outcome) : WResult :=
+  if existed then { success := isSuccess o, dirPresent := true }
+  else { success := isSuccess o, dirPresent := isSuccess o }
+
+/-- `Handle::fetch` before the repair c80785f. -/
+def workerFetchBefore_c80785f (existed : Bool) (o : Outcome) : WResult :=
   if existed then { success := isSuccess o, dirPresent := true }
   else
     match o with
@@ -36,11 +43,6 @@ def workerFetch (existed : Bool) (o : Outcome) : WResult :=
     | .failed => { success := false, dirPresent := true }
     | .error => { success := false, dirPresent := false }
     | .panic => { success := false, dirPresent := false }
-
-/-- The repaired `Handle::fetch`: the temporary clone is moved into storage iff the fetch succeeded. -/
-def workerFetchRepaired (existed : Bool) (o : Outcome) : WResult :=
-  if existed then { success := isSuccess o, dirPresent := true }
-  else { success := isSuccess o, dirPresent := isSuccess o }
 
 /-- The configuration a node-level fetch runs `radicle_fetch` with in the harness scenarios: the node's own
 key owns no namespace and is no delegate; seeding scope `all`; nobody blocked; no announced `refs_at`. -/
